@@ -44,4 +44,36 @@ def components (adj : Nat → List Nat) (n fuel : Nat) : List (List Nat) :=
       let d := (run adj fuel (init adj s)).dist
       acc ++ [(List.range n).filter (fun v => (d v).isSome)]) []
 
+/-! ## structure id (`findStructureId<GraphDistVisitor>` + `Graph::calcId_` + `GraphNode::initStringId_`)
+
+Every vertex of maximal degree is tried as the start of a distance labelling; the id of one labelling is the concatenation of the
+SORTED node strings (label of the node with its `Dist` entry in front, when it was reached); the largest id wins.  Generic in the
+key type `β`, the comparison used by the sort, the concatenation `cat` and the choice `pick`, so that the theorems hold for any of
+them; `structIdStr` is the instance the code uses. -/
+
+def idKeys {β : Type} (key : String → Option Nat → β) (adj : Nat → List Nat) (verts : List Nat) (lab : Nat → String)
+    (fuel s : Nat) : List β :=
+  let d := (run adj fuel (init adj s)).dist
+  verts.map fun v => key (lab v) (d v)
+
+def maxDeg (adj : Nat → List Nat) (verts : List Nat) : Nat := (verts.map fun v => (adj v).length).foldl max 0
+
+def starts (adj : Nat → List Nat) (verts : List Nat) : List Nat :=
+  verts.filter fun v => (adj v).length == maxDeg adj verts
+
+def structId {β γ : Type} (key : String → Option Nat → β) (le : β → β → Bool) (cat : List β → γ) (pick : γ → γ → γ) (e : γ)
+    (adj : Nat → List Nat) (verts : List Nat) (lab : Nat → String) (fuel : Nat) : γ :=
+  ((starts adj verts).map fun s => cat ((idKeys key adj verts lab fuel s).mergeSort le)).foldl pick e
+
+/-- `GraphNode::getStringId` after the visitor stored `Dist`: integer entries come first -/
+def nodeKey (lab : String) (d : Option Nat) : String :=
+  match d with
+  | some k => "Dist" ++ toString k ++ lab
+  | none => lab
+
+def pickStr (a b : String) : String := if a < b then b else a
+
+def structIdStr (adj : Nat → List Nat) (verts : List Nat) (lab : Nat → String) (fuel : Nat) : String :=
+  structId nodeKey (fun a b => decide (a ≤ b)) String.join pickStr "" adj verts lab fuel
+
 end Votca.C16
